@@ -620,6 +620,12 @@ func (e *Env) evalCall(n *gen.Node) (Val, bool) {
 			if v, ok := PlainInt(a0.S); ok {
 				return IntV(v), true
 			}
+		case VFloat:
+			// a whole number is that integer under every reading of "convert into integer"
+			// (README: int(json(value)['test']) >= 1, JSON numbers being floats)
+			if a0.F == math.Trunc(a0.F) && math.Abs(a0.F) <= 1<<53 {
+				return IntV(int64(a0.F)), true
+			}
 		}
 		return e.undef("int() of non-plain-integer text")
 	case "float":
